@@ -19,3 +19,18 @@ PROPS["C31"] = dict(
     assumptions=["toc_len = 0 is treated as invalid (a TOC is never empty), as the code does"],
     allowed_axioms=[],
 )
+
+PROPS["C05"] = dict(
+    corr_module="Corr.C05",
+    streams={"ops": dict(runner="C05_run", in_t="C05_in", out_t="C05_out", shard=20, imports=["Model.Wal"])},
+    n_quick=320, n_thorough=6000,
+    rule="op sequences (append/checkpoint/pending/records_after/stats/should_checkpoint/reopen) over fresh regions of 1 B - 64 KiB; "
+         "payload sizes aimed to end within +-60 bytes of the region end or exactly at it, whole-region and oversized payloads, empty payloads; "
+         "non-trivial = at least one checkpoint and two accepted appends; distinct by digest of (size, ops)",
+    level_text="Unbounded refinement theorem over the byte-exact model of EmbeddedWal (any region size, any op list, any hash function): pending_records returns exactly the records appended since the last checkpoint, rejected appends change nothing, reopen-from-header preserves the pending list; model tied to src/io/wal.rs by differential op sequences with real BLAKE3 digests.",
+    level_note="Trusted: Coq kernel + vm_compute; hand-written model of src/io/wal.rs (tied by correspondence); BLAKE3 abstracted as an arbitrary function; file I/O modelled as in-range writes to a byte list (short writes / I/O errors not modelled); sequence numbers assumed below 2^64.",
+    trusted_base=["BLAKE3 is a Section variable H; in the correspondence run H is the table of real digests of the payloads used",
+                  "should_checkpoint's f64 comparison modelled as exact rational comparison (exact for region sizes below 2^50)"],
+    assumptions=["no I/O errors or short writes", "fewer than 2^64 appends"],
+    allowed_axioms=[],
+)
